@@ -25,6 +25,7 @@ import (
 	"grol.io/grol/extensions"
 	"grol.io/grol/object"
 	"grol.io/grol/repl"
+	"grol.io/grol/token"
 	"verifharness/common"
 	. "verifharness/common"
 )
@@ -798,6 +799,61 @@ func c19Run(c *Ctx, noReg bool, names []string, evs []event, line string) runRes
 
 var fnText = regexp.MustCompile(`\(\)=>(mkn|\{[^{}]*\})`)
 
+// The same sequence with NO reading of the bindings in between (evaluating a name at top level can itself repair a
+// sharing bug: the first value of a constant is taken from the output of the statement that bound it); every tracked
+// name is read once, after the last event.
+func c19RunLazy(c *Ctx, noReg bool, names []string, evs []event, line string) runResult {
+	se := newSession(noReg)
+	mode := "reg"
+	if noReg {
+		mode = "noreg"
+	}
+	bindOut := map[string]string{} // constant -> what the statement that bound it printed
+	touched := map[string]bool{}
+	var res runResult
+	for idx, ev := range evs {
+		src := ev.src(&se.uniq)
+		out, panicked, errs := se.exec(src)
+		c.Eval()
+		out = fnText.ReplaceAllString(out, "<fn>")
+		if ev.a.kind == "AS" && ev.a.ex.kind == 'B' && strings.HasPrefix(out, "ok=") {
+			out = "ok=<fn>"
+		}
+		if panicked {
+			c.Fail("panic-"+ev.a.kindName(), line, fmt.Sprintf("%s step %d %q: %v", mode, idx, src, errs))
+		}
+		n := ev.a.name
+		switch {
+		case ev.a.kind == "DL" && out == "ok=true" && ev.scope == 'T':
+			delete(bindOut, n)
+			touched[n] = false
+		case ev.a.kind == "AS" && ev.scope == 'T' && isConst(n) && !touched[n] && strings.HasPrefix(out, "ok="):
+			bindOut[n] = out[3:]
+			touched[n] = true
+		default:
+			touched[n] = true
+			if ev.a.kind == "DL" {
+				delete(bindOut, n)
+			}
+		}
+		res.outcomes = append(res.outcomes, out)
+		res.obs = append(res.obs, out)
+	}
+	var bs []string
+	for _, n := range names {
+		v, ins := se.value(n)
+		bs = append(bs, n+"="+v)
+		if f, ok := bindOut[n]; ok && isConst(n) && ins != f {
+			c.Fail("const-changed-unobserved-"+typeOfRendering(f), line,
+				fmt.Sprintf("%s: %s printed %s when it was bound, after the sequence (never read in between) it is %s", mode, n, f, ins))
+		}
+	}
+	if len(res.obs) > 0 {
+		res.obs[len(res.obs)-1] += " " + strings.Join(bs, " ")
+	}
+	return res
+}
+
 func typeOfRendering(v string) string {
 	if strings.HasPrefix(v, "<fn>") {
 		return "function"
@@ -825,7 +881,10 @@ func typeOfRendering(v string) string {
 	return "int"
 }
 
-func c19Seq(c *Ctx, names []string, evs []event) {
+func c19Seq(c *Ctx, names []string, evs []event) { c19SeqL(c, names, evs, 2) }
+
+// lazy: 0 no unobserved run, 1 with registers only, 2 both register modes
+func c19SeqL(c *Ctx, names []string, evs []event, lazy int) {
 	evs = append([]event(nil), evs...)
 	nid := 0
 	for i := range evs { // every closure-making occurrence gets its own id (its defining environment)
@@ -894,6 +953,14 @@ func c19Seq(c *Ctx, names []string, evs []event) {
 	}
 	c.Case(lineR, h+" | "+strings.Join(r.obs, " | "))
 	c.Case(lineN, h+" | "+strings.Join(n.obs, " | "))
+	if lazy >= 1 {
+		l := "CST R FL " + body
+		c.Case(l, h+" | "+strings.Join(c19RunLazy(c, false, names, evs, l).obs, " | "))
+	}
+	if lazy >= 2 {
+		l := "CST N FL " + body
+		c.Case(l, h+" | "+strings.Join(c19RunLazy(c, true, names, evs, l).obs, " | "))
+	}
 }
 
 // ---- generators
@@ -1063,6 +1130,24 @@ func corpus() ([][]string, [][]event) {
 				T(asx("g2", expr{kind: 'M', y: "K", v: vi(5)})), T(asx("y", expr{kind: 'G', y: "g2"})), call("y"))
 			// a non constant name: the closure shares the top-level variable
 			add([]string{"K", "x", "v"}, T(as("v", vi(1))), T(asx("g1", expr{kind: 'M', y: "v", v: v})), call("x"), T(as("v", vi(7))), call("x"), T(rd("v")))
+		}
+	}
+	// a variable grown by index assignment / del (its storage is a private copy of the interpreter), handed to a constant
+	// through a function that reads the OUTER variable, then written again - with nothing evaluating K or the variable
+	// at top level in between (the unobserved run of every sequence)
+	for _, n := range []int{3, 5, 6, 9} {
+		for _, how := range []byte{'R', 'N', 'W'} {
+			var evs []event
+			evs = append(evs, T(as("mv", vmap())))
+			for i := 0; i < n; i++ {
+				evs = append(evs, T(ix("mv", vi(int64(i)), vi(int64(i*10)))))
+			}
+			evs = append(evs, T(asx("K", expr{kind: how, y: "mv"})), T(ix("mv", vi(0), vi(100))), T(attempt{kind: "DE", name: "mv", k: vi(1)}),
+				T(ix("mv", vi(77), vi(7))), event{'F', ix("mv", vi(2), vi(200))})
+			add([]string{"K", "mv"}, evs...)
+			evs = []event{T(as("av", parr(n+4, 0))), T(ix("av", vi(0), vi(5))), T(asx("KA", expr{kind: how, y: "av"})), T(ix("av", vi(1), vi(100))),
+				T(asx("av", expr{kind: 'Q', y: "av", v: vi(3)})), event{'F', ix("av", vi(2), vi(200))}}
+			add([]string{"KA", "av"}, evs...)
 		}
 	}
 	// closures that ESCAPED their maker and write to its constant-named parameter before any read: =, :=, a parameter
@@ -1481,6 +1566,19 @@ func c19Random(c *Ctx, nEvents int) {
 				cur[n] = yv
 			}
 		case k < 30: // a burst of index writes on one name: same-value writes and changing ones back to back
+			if v.kind == 'm' { // grow / shrink a map step by step, then hand it to a constant through a function reading it
+				for j := 3 + c.R.Intn(5); j > 0; j-- {
+					if c.R.Pct(20) {
+						evs = append(evs, event{sc, attempt{kind: "DE", name: n, k: vi(int64(c.R.Intn(10)))}})
+					} else {
+						evs = append(evs, event{sc, ix(n, vi(int64(c.R.Intn(10))), randLeaf(c))})
+					}
+				}
+				if !isConst(n) {
+					evs = append(evs, T(asx(randConstName(c), expr{kind: []byte{'R', 'N', 'W'}[c.R.Intn(3)], y: n})), event{sc, ix(n, vi(int64(c.R.Intn(10))), randLeaf(c))})
+				}
+				continue
+			}
 			if v.kind == 'a' && len(v.els) > 0 {
 				nb := 2 + c.R.Intn(3)
 				for j := 0; j < nb; j++ {
@@ -1566,7 +1664,11 @@ func c19Random(c *Ctx, nEvents int) {
 		}
 		evs = append(evs, event{sc, a})
 	}
-	c19Seq(c, names, evs)
+	lz := 0
+	if c.R.Pct(35) {
+		lz = 1
+	}
+	c19SeqL(c, names, evs, lz)
 }
 
 // an index / key aimed at v: mostly one it has
@@ -1612,6 +1714,10 @@ var rawCorpus = []rawProg{
 	// inside func FOO, Get(FOO) is the running function: the constant check compared the function with itself
 	{"const-changed-ownname-function", []string{"func FOO(){FOO=self}", "H=FOO", "del(FOO)", "FOO=1", "H()"}, "FOO", "1"},
 	{"const-changed-ownname-function", []string{"func BAR(){BAR=2}", "H=BAR", "del(BAR)", "BAR=1", "H()"}, "BAR", "1"},
+	// info handed out the process-wide map and kept updating it
+	{"const-changed-info-globals", []string{"K=info", "s1=json(K.globals)", "xyz=1", "x=info.version"}, "json(K.globals)==s1", "true"},
+	// functions with the same body and another name are not the same value
+	{"const-changed-function-othername", []string{"func f(x){x}", "K=f", "func g(x){x}", "r=catch(K=g)"}, "r.err", "true"},
 	{"const-captured-changed-escapedclosure-as", []string{"func mk(K){[()=>K, ()=>{K=99}]}", "p=mk(1)", "r=catch(p[1]())"}, "[r.err, p[0]()]", "[true,1]"},
 	{"const-shadowed-escapedclosure-pm", []string{"func mk2(LIMIT){func(LIMIT){LIMIT}}", "g=mk2(10)", "r=catch(g(20))"}, "r.err", "true"},
 	{"const-captured-changed-escapedclosure-fi", []string{"func mk(K){()=>{for K = 3 {}; K}}", "g=mk(7)"}, "g()", "7"},
@@ -1631,6 +1737,142 @@ func c19Raw(c *Ctx) {
 			}
 			if got != rp.want {
 				c.Fail(rp.sig, "RAW "+strings.Join(rp.lines, "; ")+"; "+rp.expr, fmt.Sprintf("noreg=%v: %s is %s, expected %s", noReg, rp.expr, got, rp.want))
+			}
+		}
+	}
+}
+
+// ---- every callable there is, applied to a constant.
+// The extension functions registered at run time (object.ExtraFunctions), the functions the root environment comes
+// with (written in grol) and the builtin keywords are enumerated, not listed: a function added later is covered too.
+// Each is called with the constant in every argument position (the other arguments get a default of the declared
+// type), directly, through an alias and through a parameter; afterwards the constant must be exactly what it was.
+// Not called: del (the explicit deletion the property exempts) and what blocks or leaves the process
+// (sleep, read, eof, image.save, image.png).
+var extSkip = map[string]bool{"del": true, "sleep": true, "read": true, "eof": true, "image.save": true, "image.png": true, "macro": true, "quote": true, "unquote": true}
+
+func defaultArg(t object.Type) string {
+	switch t { //nolint:exhaustive // the rest gets an integer
+	case object.FLOAT:
+		return "1.5"
+	case object.STRING:
+		return "\"a\""
+	case object.ARRAY:
+		return "[2,1]"
+	case object.MAP:
+		return "{1:1}"
+	case object.BOOLEAN:
+		return "true"
+	case object.FUNC:
+		return "func(x){x}"
+	}
+	return "1"
+}
+
+type callable struct {
+	name     string
+	minA     int
+	maxA     int // -1 unlimited
+	argTypes []object.Type
+}
+
+func allCallables() []callable {
+	var cs []callable
+	for n, e := range object.ExtraFunctions() {
+		cs = append(cs, callable{n, e.MinArgs, e.MaxArgs, e.ArgTypes})
+	}
+	for b := range token.Info().Builtins {
+		cs = append(cs, callable{b, 1, 2, nil})
+	}
+	// functions bound in a fresh root environment
+	st := eval.NewState()
+	if o, err := eval.EvalString(st, "info.globals", false); err == nil {
+		for _, k := range object.Elements(o) {
+			if ks, ok := k.(object.String); ok {
+				if v, err := eval.EvalString(st, ks.Value, false); err == nil && v.Type() == object.FUNC {
+					cs = append(cs, callable{ks.Value, 1, 3, nil})
+				}
+			}
+		}
+	}
+	sort.Slice(cs, func(i, j int) bool { return cs[i].name < cs[j].name })
+	return cs
+}
+
+func c19Callables(c *Ctx) {
+	shapes := []struct{ name, src string }{
+		{"smallarray", "[3,1,2]"}, {"bigarray", "[9,8,7,6,5,4,3,2,1,0]"}, {"nestedarray", "[[3,1],[2,9,8,7,6,5,4,3,2,1]]"},
+		{"smallmap", "{3:1,1:[2,1]}"}, {"bigmap", "{9:1,8:2,7:3,6:4,5:5,4:[2,1]}"}, {"string", "\"cba\""}, {"float", "2.5"}, {"int", "3"},
+	}
+	cs := allCallables()
+	c.Extra["callables"] = len(cs)
+	for _, f := range cs {
+		if extSkip[f.name] {
+			continue
+		}
+		for _, sh := range shapes {
+			for _, noReg := range []bool{false, true} {
+				se := newSession(noReg)
+				se.exec("K=" + sh.src)
+				se.exec("b=K")
+				want, _ := se.value("K")
+				maxPos := f.maxA
+				if maxPos < 0 || maxPos > 3 {
+					maxPos = 3
+				}
+				if maxPos < 1 {
+					continue
+				}
+				for pos := 0; pos < maxPos; pos++ {
+					for _, route := range []string{"direct", "alias", "parameter"} {
+						nargs := f.minA
+						if nargs < pos+1 {
+							nargs = pos + 1
+						}
+						args := make([]string, nargs)
+						for i := range args {
+							t := object.ANY
+							if i < len(f.argTypes) {
+								t = f.argTypes[i]
+							}
+							args[i] = defaultArg(t)
+						}
+						who := "K"
+						if route == "alias" {
+							who = "b"
+						} else if route == "parameter" {
+							who = "p"
+						}
+						args[pos] = who
+						call := f.name + "(" + strings.Join(args, ",") + ")"
+						src := "r=" + call
+						if route == "parameter" {
+							se.uniq++
+							src = fmt.Sprintf("r=func(p){%d;%s}(K)", se.uniq, call)
+						}
+						_, panicked, errs := se.exec(src)
+						c.Eval()
+						line := fmt.Sprintf("CALL noreg=%v K=%s; b=K; %s", noReg, sh.src, src)
+						if panicked {
+							c.Fail("panic-call-"+f.name, line, fmt.Sprintf("%v", errs))
+						}
+						if got, _ := se.value("K"); got != want {
+							c.Fail("const-changed-by-call-"+f.name+"-"+sh.name+"-"+route, line, fmt.Sprintf("K was %s, after the call it is %s", want, got))
+							se.exec("del(K)")
+							se.exec("K=" + sh.src)
+							se.exec("b=K")
+						}
+						// what the call returned is a value of its own: writing to it must not reach the constant
+						se.exec("r[0]=77")
+						if got, _ := se.value("K"); got != want {
+							c.Fail("const-changed-through-result-"+f.name+"-"+sh.name+"-"+route, line+"; r[0]=77", fmt.Sprintf("K was %s, now %s", want, got))
+							se.exec("del(K)")
+							se.exec("K=" + sh.src)
+							se.exec("b=K")
+						}
+						c.Count("callable-route=" + route)
+					}
+				}
 			}
 		}
 	}
@@ -1659,6 +1901,7 @@ func runC19(c *Ctx) {
 		return
 	}
 	c19Raw(c)
+	c19Callables(c)
 	ns, seqs := corpus()
 	for i := range seqs {
 		c19Seq(c, ns[i], seqs[i])
